@@ -1,5 +1,5 @@
 //! Verification harness for jonasBoss/ndarray-interp: runs the real crate (path dependency on
-//! /repo, rebuilt from its working tree) on protocol cases — runner for the element type(s) Q (exact rationals).
+//! /repo, rebuilt from its working tree) on protocol cases — runner for the element type(s) f64 and f32.
 
 #![allow(dead_code)]
 mod bigint;
@@ -13,7 +13,8 @@ use proto::Toks;
 
 fn dispatch(s: &str, t: &mut Toks) -> Result<(bool, String), String> {
     match s {
-        "Q" => run::op::<q::Q>(t),
+        "F" => run::op::<f64>(t),
+        "G" => run::op::<f32>(t),
         _ => Err(format!("scalar type {s} is not served by this runner")),
     }
 }
